@@ -91,6 +91,18 @@ def gen_case(rng, tier):
                                              '.2byte 5 }', '.byte 1 +', 'op1 (1', '.fill 2 ! 3, 1'])}[fault]
         lines = text.split('\n')
         lines.insert(rng.randrange(len(lines)), ins)
+        if rng.random() < 0.3:
+            # the faulty statement is the letter-case twin of a VALID statement that stands earlier in the program: mnemonics
+            # and registers ignore case, labels and the H suffix of hexadecimal literals do not
+            good, bad = rng.choice([('op1 twn_k', 'op1 Twn_K'), ('op2 twn_k + 1', 'OP2 TWN_K + 1'), ('op1 10H', 'op1 10h'),
+                                    ('op2 0FFH', 'op2 0ffh'), ('.byte twn_k', '.byte TWN_k'), ('ldn twn_k', 'ldn twn_K')])
+            lines = text.split('\n')
+            i = rng.randrange(len(lines) + 1)
+            j = rng.randint(i, len(lines))
+            lines.insert(j, bad)
+            lines.insert(i, good)
+            lines.insert(0, 'twn_k = 5')
+            fault = 'case-twin-of-valid-statement'
         case.update(kind='fault', how=fault, text='\n'.join(lines))
     else:
         case.update(kind='valid', how='valid', text=text)
